@@ -26,6 +26,7 @@ import (
 	"encoding/json"
 	"flag"
 	"fmt"
+	"math"
 	"os"
 	"runtime"
 	"runtime/debug"
@@ -599,7 +600,10 @@ func main() {
 	var lim []string
 	if !*noSeqFlag && !r.Expired() {
 		tl := time.Now()
-		tuneGC(2560) // 256 MB messages: payload, reassembly buffer (while growing) and the delivered copy are alive at once
+		// 256 MB messages: payload, reassembly buffer (while growing) and the delivered copy are alive
+		// at once (~1.2 GB); a proportional pacer recycles the per-packet buffers promptly
+		debug.SetMemoryLimit(math.MaxInt64)
+		debug.SetGCPercent(25)
 		lim = runLimitCases(r, seqWorld)
 		fmt.Printf("size limit: %d cases around maxMessageSize=%d (%.1fs): %s\n", len(lim), K.MaxMessageSize, time.Since(tl).Seconds(), strings.Join(lim, "; "))
 	} else if !*noSeqFlag {
